@@ -786,6 +786,46 @@ def r05_14(run, model):
                        "field syntax`; accepted once the struct is moved to another file of the package")
 
 
+CASE_PREDICATES = {"is_uppercase", "is_lowercase", "is_ascii_uppercase", "is_ascii_lowercase", "eq_ignore_ascii_case"}  # questions, not the
+# to_uppercase()/to_lowercase() transformations (go_symbol_name capitalises the Go name of an extern symbol: a rendering, no decision)
+
+
+def r05_15(run, model):
+    run.rule("R05.15", "what a name refers to never depends on its spelling: goml's identifier grammar gives capital letters no meaning (a "
+                       "variant, a struct or a binder may start with any letter), so nothing between the lexer and the typed program asks a "
+                       "letter-case question - a resolver that consults the binders only for capitalised names lets `fn f(up: Dir)` with a "
+                       "variant `up` resolve the parameter to the constructor")
+    front = [rel for rel in model.src_files() if rel.startswith(("crates/ast/", "crates/parser/", "crates/cst/", "crates/lexer/")) or
+             rel.startswith("crates/compiler/src/typer/") or rel in ("crates/compiler/src/hir.rs", "crates/compiler/src/env.rs",
+                                                                       "crates/compiler/src/compile_match.rs", "crates/compiler/src/derive.rs")]
+    n_fns, hits, control = 0, [], 0
+    for rel in front:
+        for f in model.fns(rel):
+            if f.body is None:
+                continue
+            n_fns += 1
+            for x in S.walk(f.body):
+                nm = None
+                if x["k"] == "MethodCall":
+                    nm = x["method"]
+                elif x["k"] == "Path" and len(x.get("segs") or []) >= 2 and x["segs"][-2] in ("char", "str", "u8"):
+                    nm = x["segs"][-1]
+                if nm is None:
+                    continue
+                if nm.startswith(("is_ascii_", "is_alphanumeric", "is_alphabetic", "is_whitespace", "is_control", "is_numeric")) and nm not in CASE_PREDICATES:
+                    control += 1
+                if nm in CASE_PREDICATES:
+                    hits.append((rel, f, x, nm))
+    for rel, f, x, nm in hits:
+        run.ob("R05.15", f"{f.qual}|no letter-case test ({nm})", False, site(rel, x["sp"]),
+               f"`{nm}` is asked in {f.name}: a decision that follows the capitalisation of a name",
+               witness="enum Dir { up, down } fn step(up: int32) -> int32 { up + 1 }: with a capitals-only binder lookup `up` is the constructor; "
+                       "a lower-case variant of another file used as a bare pattern becomes a catch-all binder")
+    run.ob("R05.15", "front end|no decision follows the capitalisation of a name", not hits, site("crates/compiler/src/typer/name_resolution.rs", None),
+           f"{n_fns} functions of lexer, parser, cst, ast, typer, hir, env, compile_match, derive examined; {len(hits)} letter-case tests")
+    run.floor("front-end functions scanned for letter-case tests", n_fns, 300)
+
+
 def run(run, model):
     run.try_rule(r05_7, model)
     run.try_rule(r05_6, model)
@@ -796,6 +836,7 @@ def run(run, model):
     run.try_rule(r05_12, model)
     run.try_rule(r05_13, model)
     run.try_rule(r05_14, model)
+    run.try_rule(r05_15, model)
     run.try_rule(r05_5, model)
     run.try_rule(r05_1, model)
     run.try_rule(r05_2, model)
